@@ -610,7 +610,7 @@ class Workspace(AbstractContextManager):
             )
 
         if isinstance(entity, (Concatenated, ConcatenatedPropertyGroup)):
-            entity.concatenator.remove_entity(entity)
+            entity.parent.remove_children([entity])
             return
 
         self.workspace.remove_recursively(entity)
